@@ -24,7 +24,7 @@ import (
 func init() {
 	ev.Register(&ev.Spec{
 		ID: "C11", Level: "exploration",
-		Rule:    "real client <-> real server over a backend file whose content is a function of the offset (so offsets beyond 2^32 and multi-MiB sizes are free) and whose ReadAt/WriteAt are scripted (short count or error on chunk j); grid msize {154 (smallest accepted), 155, 665, 666, 1024+-1, 4K, 64K, 1M; thorough adds 54 PRNG msize values between 154 and 2.1 MiB; four configurations where the connection had accepted a Tversion with another msize before the client negotiated} x len(p) {0, 1, L-1, L, L+1, 2L-1, 2L, 2L+1, 3L+7, PRNG} (L = the chunk size observed for this msize) x offsets {0, 1, size-1, size, size+1, 2^32+-1, 2^40} x file sizes on both sides of off+len x fault on each chunk index. Oracle on the backend's chunk log and the client's return: chunks in order, contiguous, within the protocol's payload bound, none after the first short or failed chunk, (n, err, bytes) as one operation on a byte-slice model, io.EOF only if n < len(p) and always if n == 0 < len(p), zero-length p => one request. Last use: the multi-chunk call is the program's last reference to the File (no Close) and the backend forces garbage collections from the second chunk on - the call still completes as one operation. Non-trivial: >= 2 chunks or a boundary (EOF, short, error); distinct by (msize, len class, offset class, fault).",
+		Rule:    "real client <-> real server over a backend file whose content is a function of the offset (so offsets beyond 2^32 and multi-MiB sizes are free) and whose ReadAt/WriteAt are scripted (short count or error on chunk j); grid msize {154 (smallest accepted), 155, 665, 666, 1024+-1, 4K, 64K, 1M; thorough adds 54 PRNG msize values between 154 and 2.1 MiB; four configurations where the connection had accepted a Tversion with another msize before the client negotiated} x len(p) {0, 1, L-1, L, L+1, 2L-1, 2L, 2L+1, 3L+7, PRNG} (L = the chunk size observed for this msize) x offsets {0, 1, size-1, size, size+1, 2^32+-1, 2^40} x file sizes on both sides of off+len x fault on each chunk index. Oracle on the backend's chunk log and the client's return: chunks in order, contiguous, within the protocol's payload bound, none after the first short or failed chunk, (n, err, bytes) as one operation on a byte-slice model, io.EOF only if n < len(p) and always if n == 0 < len(p), zero-length p => one request. Last use: the multi-chunk call is the program's last reference to the File (no Close) and the backend forces garbage collections from the second chunk on - the call still completes as one operation. Above the cap: clients asking for 4 MiB+1 .. 2^32-1 against the server's 4 MiB, reads and writes larger than one message. Non-trivial: >= 2 chunks or a boundary (EOF, short, error); distinct by (msize, len class, offset class, fault).",
 		Assume:  []string{"memfs synthetic file is the byte-slice model", "the backend's call log (len@off per chunk) is what the server forwarded", "p[n:] is not asserted"},
 		Shards:  shards(8, 16),
 		Timeout: timeout(8*time.Minute, 60*time.Minute),
